@@ -155,13 +155,13 @@ theorem envStoreAt_loud (w e : Nat) (name : String) (val : Obj) (st : St) (fr : 
   have hO : ∀ {α} (x : M α) (s : St), outcome x s = (run x s).1 := fun _ _ => rfl
   have hS : ∀ {α} (x : M α) (s : St), stateAfter x s = (run x s).2 := fun _ _ => rfl
   have e1 : outcome (envStoreAt w e name val) st = outcome (functionChanged w (some o) >>= fun _ =>
-      (modifyFrame e fun f =>
-        { f with store := setStore f.store name val, numSet := if f.depth == 0 then f.numSet + 1 else f.numSet, localFunc := noteLocal f val }) >>= fun _ =>
+      rootBindsFunc name >>= fun rb => (modifyFrame e fun f =>
+        { f with store := setStore f.store name val, numSet := if f.depth == 0 then f.numSet + 1 else f.numSet, localFunc := noteLocal f val rb }) >>= fun _ =>
       (pure val : M Obj)) st := by
     rw [hO, hO]; unfold envStoreAt; rw [run_bind, run_getFrame, hfr]; dsimp only; rw [hl]
   have e2 : stateAfter (envStoreAt w e name val) st = stateAfter (functionChanged w (some o) >>= fun _ =>
-      (modifyFrame e fun f =>
-        { f with store := setStore f.store name val, numSet := if f.depth == 0 then f.numSet + 1 else f.numSet, localFunc := noteLocal f val }) >>= fun _ =>
+      rootBindsFunc name >>= fun rb => (modifyFrame e fun f =>
+        { f with store := setStore f.store name val, numSet := if f.depth == 0 then f.numSet + 1 else f.numSet, localFunc := noteLocal f val rb }) >>= fun _ =>
       (pure val : M Obj)) st := by
     rw [hS, hS]; unfold envStoreAt; rw [run_bind, run_getFrame, hfr]; dsimp only; rw [hl]
   rw [e1, outcome_bind] at hok
@@ -171,8 +171,8 @@ theorem envStoreAt_loud (w e : Nat) (name : String) (val : Obj) (st : St) (fr : 
   | ok u =>
     dsimp only
     have h1 := functionChanged_loud w o st ho hf
-    have h2 : Tr ((modifyFrame e fun f =>
-        { f with store := setStore f.store name val, numSet := if f.depth == 0 then f.numSet + 1 else f.numSet, localFunc := noteLocal f val }) >>= fun _ =>
+    have h2 : Tr (rootBindsFunc name >>= fun rb => (modifyFrame e fun f =>
+        { f with store := setStore f.store name val, numSet := if f.depth == 0 then f.numSet + 1 else f.numSet, localFunc := noteLocal f val rb }) >>= fun _ =>
         (pure val : M Obj)) := by tr
     have h3 := (h2.h (stateAfter (functionChanged w (some o)) st)).miss w
     omega
